@@ -5,6 +5,8 @@ import ZapVerif.Gen.EntryMeta
 import ZapVerif.Proofs.MapEnc
 import ZapVerif.Proofs.Base64
 import ZapVerif.Model.Binary
+import ZapVerif.Proofs.SubEnc
+import ZapVerif.Gen.SubEncSrc
 /-! # C02 — JSON output decodes to exactly the logged values, in order, at the right nesting -/
 namespace ZapVerif.C02
 open ZapVerif ZapVerif.Esc ZapVerif.Json ZapVerif.Enc ZapVerif.Entry
@@ -127,5 +129,327 @@ def expectedJsonEntryGuards : List String := [
 ]
 
 theorem entry_guards_as_modelled : Gen.jsonEntryGuards = expectedJsonEntryGuards := by decide
+
+/-! ------------------------------------------------------------------------------------------------------------------
+## built-in sub-encoders (BEGIN block `subenc`; model `Model/SubEnc.lean`, lemmas `Proofs/SubEnc.lean`)
+
+The level / duration / time / caller / name encoder functions of zapcore/encoder.go whose output is integer- or
+text-exact are no longer parameters of the model: the driver computes what they append from the raw entry values
+(`SubEnc.lvlRes`, `durRes`, `timeRes`, `callerRes`, `nameRes`) and the result is compared with the real encoder's bytes
+on every run. Still parameters: `EpochTimeEncoder`, `EpochMillisTimeEncoder`, `SecondsDurationEncoder` (float text)
+and the `time.Format` text of the layout encoders. -/
+section SubEncoders
+open ZapVerif.SubEnc
+
+/-- the source text of every built-in sub-encoder function and of the `EntryCaller` methods they call, as the model
+    assumes it (`Gen.subEncBodies` is re-read from zapcore/encoder.go and zapcore/entry.go on every run) -/
+def expectedSubEncBodies : List (String × String × List String) := [
+  ("LowercaseLevelEncoder", "l Level, enc PrimitiveArrayEncoder", ["0:enc.AppendString(l.String())"]),
+  ("LowercaseColorLevelEncoder", "l Level, enc PrimitiveArrayEncoder", ["0:s, ok := _levelToLowercaseColorString[l]", "0:if !ok", "1:s = _unknownLevelColor.Add(l.String())", "0:enc.AppendString(s)"]),
+  ("CapitalLevelEncoder", "l Level, enc PrimitiveArrayEncoder", ["0:enc.AppendString(l.CapitalString())"]),
+  ("CapitalColorLevelEncoder", "l Level, enc PrimitiveArrayEncoder", ["0:s, ok := _levelToCapitalColorString[l]", "0:if !ok", "1:s = _unknownLevelColor.Add(l.CapitalString())", "0:enc.AppendString(s)"]),
+  ("EpochTimeEncoder", "t time.Time, enc PrimitiveArrayEncoder", ["0:nanos := t.UnixNano()", "0:sec := float64(nanos) / float64(time.Second)", "0:enc.AppendFloat64(sec)"]),
+  ("EpochMillisTimeEncoder", "t time.Time, enc PrimitiveArrayEncoder", ["0:nanos := t.UnixNano()", "0:millis := float64(nanos) / float64(time.Millisecond)", "0:enc.AppendFloat64(millis)"]),
+  ("EpochNanosTimeEncoder", "t time.Time, enc PrimitiveArrayEncoder", ["0:enc.AppendInt64(t.UnixNano())"]),
+  ("encodeTimeLayout", "t time.Time, layout string, enc PrimitiveArrayEncoder", ["0:type appendTimeEncoder interface{AppendTimeLayout(time.Time, string)}", "0:if enc, ok := enc.(appendTimeEncoder); ok", "1:enc.AppendTimeLayout(t, layout)", "1:return", "0:enc.AppendString(t.Format(layout))"]),
+  ("ISO8601TimeEncoder", "t time.Time, enc PrimitiveArrayEncoder", ["0:encodeTimeLayout(t, \"2006-01-02T15:04:05.000Z0700\", enc)"]),
+  ("RFC3339TimeEncoder", "t time.Time, enc PrimitiveArrayEncoder", ["0:encodeTimeLayout(t, time.RFC3339, enc)"]),
+  ("RFC3339NanoTimeEncoder", "t time.Time, enc PrimitiveArrayEncoder", ["0:encodeTimeLayout(t, time.RFC3339Nano, enc)"]),
+  ("TimeEncoderOfLayout", "layout string", ["0:return func(t time.Time, enc PrimitiveArrayEncoder)", "1:encodeTimeLayout(t, layout, enc)"]),
+  ("SecondsDurationEncoder", "d time.Duration, enc PrimitiveArrayEncoder", ["0:enc.AppendFloat64(float64(d) / float64(time.Second))"]),
+  ("NanosDurationEncoder", "d time.Duration, enc PrimitiveArrayEncoder", ["0:enc.AppendInt64(int64(d))"]),
+  ("MillisDurationEncoder", "d time.Duration, enc PrimitiveArrayEncoder", ["0:enc.AppendInt64(d.Nanoseconds() / 1e6)"]),
+  ("StringDurationEncoder", "d time.Duration, enc PrimitiveArrayEncoder", ["0:enc.AppendString(d.String())"]),
+  ("FullCallerEncoder", "caller EntryCaller, enc PrimitiveArrayEncoder", ["0:enc.AppendString(caller.String())"]),
+  ("ShortCallerEncoder", "caller EntryCaller, enc PrimitiveArrayEncoder", ["0:enc.AppendString(caller.TrimmedPath())"]),
+  ("FullNameEncoder", "loggerName string, enc PrimitiveArrayEncoder", ["0:enc.AppendString(loggerName)"]),
+  ("EntryCaller.String", "ec EntryCaller", ["0:return ec.FullPath()"]),
+  ("EntryCaller.FullPath", "ec EntryCaller", ["0:if !ec.Defined", "1:return \"undefined\"", "0:buf := bufferpool.Get()", "0:buf.AppendString(ec.File)", "0:buf.AppendByte(':')", "0:buf.AppendInt(int64(ec.Line))", "0:caller := buf.String()", "0:buf.Free()", "0:return caller"]),
+  ("EntryCaller.TrimmedPath", "ec EntryCaller", ["0:if !ec.Defined", "1:return \"undefined\"", "0:idx := strings.LastIndexByte(ec.File, '/')", "0:if idx == -1", "1:return ec.FullPath()", "0:idx = strings.LastIndexByte(ec.File[:idx], '/')", "0:if idx == -1", "1:return ec.FullPath()", "0:buf := bufferpool.Get()", "0:buf.AppendString(ec.File[idx+1:])", "0:buf.AppendByte(':')", "0:buf.AppendInt(int64(ec.Line))", "0:caller := buf.String()", "0:buf.Free()", "0:return caller"])
+]
+
+theorem subenc_sources_as_modelled : Gen.subEncBodies = expectedSubEncBodies := by decide +kernel
+
+/-- the `UnmarshalText` dispatch of each encoder kind: text ↦ function, anything else ↦ the default -/
+def expectedEncoderTextTables : List (String × List (String × String) × String) := [
+  ("LevelEncoder", [("capital", "CapitalLevelEncoder"), ("capitalColor", "CapitalColorLevelEncoder"), ("color", "LowercaseColorLevelEncoder")], "LowercaseLevelEncoder"),
+  ("TimeEncoder", [("rfc3339nano", "RFC3339NanoTimeEncoder"), ("RFC3339Nano", "RFC3339NanoTimeEncoder"), ("rfc3339", "RFC3339TimeEncoder"), ("RFC3339", "RFC3339TimeEncoder"), ("iso8601", "ISO8601TimeEncoder"), ("ISO8601", "ISO8601TimeEncoder"), ("millis", "EpochMillisTimeEncoder"), ("nanos", "EpochNanosTimeEncoder")], "EpochTimeEncoder"),
+  ("DurationEncoder", [("string", "StringDurationEncoder"), ("nanos", "NanosDurationEncoder"), ("ms", "MillisDurationEncoder")], "SecondsDurationEncoder"),
+  ("CallerEncoder", [("full", "FullCallerEncoder")], "ShortCallerEncoder"),
+  ("NameEncoder", [("full", "FullNameEncoder")], "FullNameEncoder")
+]
+
+theorem encoder_text_tables : Gen.encoderTextTables = expectedEncoderTextTables := by decide +kernel
+
+/-- the colour tables: ANSI colour numbers, `Color.Add`'s escape format `ESC[<n>m<text>ESC[0m`, the level ↦ colour map,
+    the colour of unknown levels, and the two maps `init()` fills (re-read from internal/color/color.go and
+    zapcore/level_strings.go on every run) -/
+theorem level_colors_as_documented :
+    Gen.colorValues = [("Black", 30), ("Red", 31), ("Green", 32), ("Yellow", 33), ("Blue", 34), ("Magenta", 35), ("Cyan", 36), ("White", 37)] ∧
+    Gen.levelToColor = [(-1, 35), (0, 34), (1, 33), (2, 31), (3, 31), (4, 31), (5, 31)] ∧ Gen.unknownLevelColor = 31 ∧
+    Gen.colorAddPre = [27, 91] ∧ Gen.colorAddMid = [109] ∧ Gen.colorAddSuf = [27, 91, 48, 109] ∧
+    Gen.levelColorInit = [("_levelToLowercaseColorString", "String"), ("_levelToCapitalColorString", "CapitalString")] := by
+  decide
+
+/-- levels: the member written under `LowercaseLevelEncoder` / `CapitalLevelEncoder` is exactly the text
+    `Level.String()` / `CapitalString()` has in the regenerated 256-row table (whatever the no-op fall-back `fb`) -/
+theorem level_text_lower (o : SubRes) (l : Int) (fb : Bytes) :
+    subOrStr (lvlRes (some .lower) o l) fb = J.str (esc (Level.stringOf l)) := rfl
+theorem level_text_capital (o : SubRes) (l : Int) (fb : Bytes) :
+    subOrStr (lvlRes (some .capital) o l) fb = J.str (esc (Level.capitalOf l)) := rfl
+
+/-- the colour variants wrap that same text in the colour escape of the level (`_unknownLevelColor` when the level has
+    no colour of its own) -/
+theorem level_text_color (o : SubRes) (l : Int) (fb : Bytes) :
+    subOrStr (lvlRes (some .color) o l) fb =
+      J.str (esc (Gen.colorAddPre ++ fmtNat (colorOf l) ++ Gen.colorAddMid ++ Level.stringOf l ++ Gen.colorAddSuf)) := by
+  simp only [lvlRes, subOrStr, scalarJ, levelText, colorLevel_eq, colorAdd]
+theorem level_text_capital_color (o : SubRes) (l : Int) (fb : Bytes) :
+    subOrStr (lvlRes (some .capitalColor) o l) fb =
+      J.str (esc (Gen.colorAddPre ++ fmtNat (colorOf l) ++ Gen.colorAddMid ++ Level.capitalOf l ++ Gen.colorAddSuf)) := by
+  simp only [lvlRes, subOrStr, scalarJ, levelText, colorLevel_eq, colorAdd]
+
+/-- the documented colours, for every int8 level: debug magenta, info blue, warn yellow, everything else red -/
+theorem level_color_documented : ∀ l ∈ allLevels,
+    colorOf l = (if l = -1 then 35 else if l = 0 then 34 else if l = 1 then 33 else 31) := colorOf_documented
+
+/-- levels outside Debug…Fatal print as `Level(n)` / `LEVEL(n)` with the decimal of the value -/
+theorem level_text_unknown : ∀ l ∈ allLevels, l ∉ Level.validLevels →
+    Level.stringOf l = litStr "Level(" ++ fmtInt l ++ [41] ∧ Level.capitalOf l = litStr "LEVEL(" ++ fmtInt l ++ [41] :=
+  unknown_level_text
+
+/-- under each of the four level encoders distinct levels get distinct texts — all 256 values, not only the seven
+    named ones (so the level is recoverable from the member) -/
+theorem level_text_injective (k : LvlEnc) : ∀ a ∈ allLevels, ∀ b ∈ allLevels, levelText k a = levelText k b → a = b :=
+  levelText_inj k
+
+/-- … and the text survives the JSON string encoding unchanged (the ESC of the colour variants is written as \\u001b
+    and read back), so the decoded level member determines the level -/
+theorem level_member_decodes (k : LvlEnc) : ∀ l ∈ allLevels, unescape (esc (levelText k l)) = some (levelText k l) := by
+  intro l hl
+  rw [string_recoverable, sanitize_ascii _ _ (Nat.le_refl _) (levelText_ascii k l hl)]
+
+/-- durations, `NanosDurationEncoder`: the integer nanoseconds, recoverable from the text -/
+theorem nanos_duration_recoverable (o : SubRes) (n : Int) :
+    primJ (.dur ⟨n, durRes (some .nanos) o n⟩) = J.atom (fmtInt n) ∧ intOf (fmtInt n) = n :=
+  ⟨rfl, intOf_fmtInt n⟩
+
+/-- `MillisDurationEncoder`: the quotient of Go's truncating division — toward zero on BOTH sides (−1.5 ms ↦ −1, not −2;
+    −0.999999 ms ↦ 0), never further from zero than the duration, off by less than one millisecond -/
+theorem millis_duration_value (o : SubRes) (n : Int) :
+    primJ (.dur ⟨n, durRes (some .millis) o n⟩) = J.atom (fmtInt (millisOf n)) ∧
+    (0 ≤ n → millisOf n = n / 1000000 ∧ 0 ≤ millisOf n ∧ millisOf n * 1000000 ≤ n ∧ n < (millisOf n + 1) * 1000000) ∧
+    (n ≤ 0 → millisOf n = -((-n) / 1000000) ∧ millisOf n ≤ 0 ∧ n ≤ millisOf n * 1000000 ∧ (millisOf n - 1) * 1000000 < n) := by
+  refine ⟨rfl, ?_, ?_⟩
+  · intro h
+    have e : millisOf n = n / 1000000 := Int.tdiv_eq_ediv_of_nonneg h
+    rw [e]; omega
+  · intro h
+    have e : millisOf n = -((-n) / 1000000) := by
+      unfold millisOf
+      have hn : n = -(-n) := by omega
+      rw [hn, Int.neg_tdiv, Int.tdiv_eq_ediv_of_nonneg (by omega)]; simp
+    rw [e]; omega
+
+example : millisOf (-1500000) = -1 ∧ millisOf (-999999) = 0 ∧ millisOf 1999999 = 1 ∧ millisOf (-(2 ^ 63)) = -9223372036854 := by decide
+
+/-- `StringDurationEncoder`: the member is the JSON string of `time.Duration.String()` as modelled by `durString` -/
+theorem string_duration_value (o : SubRes) (n : Int) :
+    primJ (.dur ⟨n, durRes (some .string) o n⟩) = J.str (esc (durString n)) := rfl
+
+/-- … and that text determines the duration: a `time.ParseDuration`-style reader (`durParse`: sign, then groups
+    `digits[.digits]unit` over ns/us/µs/ms/s/m/h, summed) gives back exactly `d` — for every integer, hence the whole
+    int64 range including MinInt64 -/
+theorem string_duration_recoverable (d : Int) : durParse (durString d) = some d := durParse_durString d
+
+theorem string_duration_injective (a b : Int) (h : durString a = durString b) : a = b := by
+  have := congrArg durParse h
+  simpa [durParse_durString] using this
+
+/-- shape: zero is "0s"; a negative duration is '-' and the text of its magnitude -/
+theorem string_duration_zero : durString 0 = litStr "0s" := by decide +kernel
+theorem string_duration_neg (d : Int) (h : d < 0) : durString d = 45 :: durString (-d) := by
+  simp [durString, h]
+  omega
+
+/-- shape below one second: ONE group in the largest unit not exceeding the value (ns: no fraction at all; µs: up to 3
+    decimals; ms: up to 6), trailing zeros of the fraction dropped together with the point -/
+theorem string_duration_subsecond (u : Nat) (h0 : 0 < u) (h1 : u < 1000000000) :
+    durMag u = (if u < 1000 then fmtNat u ++ litStr "ns"
+                else if u < 1000000 then fmtNat (u / 1000) ++ fracText 3 u ++ litStr "µs"
+                else fmtNat (u / 1000000) ++ fracText 6 u ++ litStr "ms") := by
+  have hu0 : u ≠ 0 := by omega
+  have e0 : fracText 0 u = [] := by simp [fracText, fracDigits]
+  have lns : litStr "ns" = [110, 115] := by decide +kernel
+  have lus : litStr "µs" = [194, 181, 115] := by decide +kernel
+  have lms : litStr "ms" = [109, 115] := by decide +kernel
+  unfold durMag smallUnit
+  by_cases a : u < 1000
+  · simp [h1, hu0, a, fmtFrac_text, e0, lns]
+  · by_cases b : u < 1000000
+    · have p3 : (1000 : Nat) = 10 ^ 3 := rfl
+      simp [h1, hu0, a, b, fmtFrac_text, lus, p3]
+    · have p6 : (1000000 : Nat) = 10 ^ 6 := rfl
+      simp [h1, hu0, a, b, fmtFrac_text, lms, p6]
+
+/-- shape from one second up: hours (only when non-zero), minutes (when hours or minutes are non-zero, modulo 60),
+    seconds modulo 60 with up to 9 decimals — never days -/
+theorem string_duration_shape (u : Nat) (h : 1000000000 ≤ u) :
+    durMag u =
+      (if u / 1000000000 / 60 / 60 > 0 then fmtNat (u / 1000000000 / 60 / 60) ++ [104] else []) ++
+      (if u / 1000000000 / 60 > 0 then fmtNat (u / 1000000000 / 60 % 60) ++ [109] else []) ++
+      fmtNat (u / 1000000000 % 60) ++ fracText 9 u ++ [115] := by
+  have hs : ¬ u < 1000000000 := by omega
+  have p9 : (1000000000 : Nat) = 10 ^ 9 := rfl
+  unfold durMag
+  simp only [hs, if_false, fmtFrac_text, ← p9]
+  by_cases hm : u / 1000000000 / 60 > 0 <;> by_cases hh : u / 1000000000 / 60 / 60 > 0 <;> simp [hm, hh]
+  omega
+
+/-- the fraction never ends in '0' (trailing zeros are trimmed) -/
+theorem string_duration_frac_trimmed (p v : Nat) (h : fracDigits p v false ≠ []) :
+    (fracDigits p v false).getLast h ≠ 48 := frac_no_trailing_zero p v h
+
+example : durString 1500000000 = litStr "1.5s" ∧ durString 999 = litStr "999ns" ∧ durString 1000 = litStr "1µs" ∧
+    durString 999999000 = litStr "999.999ms" ∧ durString 59999999999 = litStr "59.999999999s" ∧
+    durString 3600000000000 = litStr "1h0m0s" ∧ durString (-1) = litStr "-1ns" ∧
+    durString (2 ^ 63 - 1) = litStr "2562047h47m16.854775807s" ∧
+    durString (-(2 ^ 63)) = litStr "-2562047h47m16.854775808s" := by decide +kernel
+
+/-- the duration text survives the JSON string encoding byte for byte: decoding the emitted string body gives back
+    `Duration.String()` exactly — including the two-byte `µ` of "µs", the only non-ASCII text a built-in emits -/
+theorem string_duration_decodes (d : Int) : unescape (esc (durString d)) = some (durString d) := by
+  rw [string_recoverable]
+  congr 1
+  -- with an ASCII prefix (the sign, or nothing) in front of the magnitude text
+  have key : ∀ (pre : Bytes) (u : Nat), (∀ b ∈ pre, b < 128) →
+      sanitize (pre ++ durMag u).length (pre ++ durMag u) = pre ++ durMag u := by
+    intro pre u hpre
+    have ascii : ∀ t : Bytes, (∀ b ∈ t, b < 128) → sanitize (pre ++ t).length (pre ++ t) = pre ++ t := by
+      intro t ht
+      exact sanitize_ascii _ _ (Nat.le_refl _) (by
+        intro b hb
+        rcases List.mem_append.mp hb with hb | hb
+        · exact hpre b hb
+        · exact ht b hb)
+    have lit : ∀ (t : Bytes), (∀ b ∈ t, b < 128) → ∀ (n : Nat) (x : Bytes), (∀ b ∈ x, b < 128) →
+        ∀ b ∈ fmtNat n ++ x ++ t, b < 128 := by
+      intro t ht n x hx b hb
+      simp only [List.mem_append] at hb
+      rcases hb with (hb | hb) | hb
+      · exact fmtNat_ascii n b hb
+      · exact hx b hb
+      · exact ht b hb
+    by_cases h0 : u = 0
+    · subst h0
+      rw [durMag_zero]
+      exact ascii _ (by decide)
+    · by_cases h1 : u < 1000000000
+      · rw [string_duration_subsecond u (by omega) h1]
+        by_cases a : u < 1000
+        · simp only [a, if_true]
+          have := lit (litStr "ns") (by decide +kernel) u [] (by simp)
+          simp only [List.append_nil] at this
+          exact ascii _ this
+        · by_cases b : u < 1000000
+          · simp only [a, b, if_true, if_false]
+            have lus : litStr "µs" = [194, 181, 115] := by decide +kernel
+            rw [lus]
+            have hA : ∀ x ∈ pre ++ (fmtNat (u / 1000) ++ fracText 3 u), x < 128 := by
+              intro x hx
+              simp only [List.mem_append] at hx
+              rcases hx with hx | hx | hx
+              · exact hpre x hx
+              · exact fmtNat_ascii _ x hx
+              · exact fracText_ascii 3 u x hx
+            have e : pre ++ (fmtNat (u / 1000) ++ fracText 3 u ++ [194, 181, 115]) =
+                (pre ++ (fmtNat (u / 1000) ++ fracText 3 u)) ++ [194, 181, 115] := by simp
+            rw [e]
+            have hl : ((pre ++ (fmtNat (u / 1000) ++ fracText 3 u)) ++ [194, 181, 115]).length =
+                (pre ++ (fmtNat (u / 1000) ++ fracText 3 u)).length + 3 := by simp; omega
+            rw [hl, sanitize_ascii_append _ _ 3 hA, sanitize_micro]
+          · simp only [a, b, if_false]
+            exact ascii _ (lit (litStr "ms") (by decide +kernel) _ _ (fracText_ascii 6 u))
+      · rw [string_duration_shape u (by omega)]
+        apply ascii
+        intro b hb
+        simp only [List.mem_append] at hb
+        rcases hb with (((hb | hb) | hb) | hb) | hb
+        · split at hb
+          · simp only [List.mem_append, List.mem_singleton] at hb
+            rcases hb with hb | hb
+            · exact fmtNat_ascii _ b hb
+            · rw [hb]; decide
+          · simp at hb
+        · split at hb
+          · simp only [List.mem_append, List.mem_singleton] at hb
+            rcases hb with hb | hb
+            · exact fmtNat_ascii _ b hb
+            · rw [hb]; decide
+          · simp at hb
+        · exact fmtNat_ascii _ b hb
+        · exact fracText_ascii 9 u b hb
+        · simp only [List.mem_singleton] at hb; rw [hb]; decide
+  unfold durString
+  by_cases hneg : d < 0
+  · simp only [hneg, if_true]
+    exact key [45] d.natAbs (by decide)
+  · simp only [hneg, if_false]
+    exact key [] d.natAbs (by simp)
+
+/-- so the whole chain closes for `StringDurationEncoder`: JSON string → text → duration -/
+theorem string_duration_roundtrip (d : Int) : (unescape (esc (durString d))).bind durParse = some d := by
+  rw [string_duration_decodes]; exact durParse_durString d
+
+/-- times, `EpochNanosTimeEncoder`: the integer `UnixNano()`, recoverable from the text -/
+theorem epoch_nanos_recoverable (o : SubRes) (n : Int) :
+    subOrNanos (timeRes true o n) n = J.atom (fmtInt n) ∧ intOf (fmtInt n) = n := ⟨rfl, intOf_fmtInt n⟩
+
+/-- `encodeTimeLayout`: whichever call it makes (`AppendTimeLayout` when the encoder has it — the JSON encoder — else
+    `AppendString(t.Format(layout))` — the console's slice encoder), the value is the escaped `time.Format` text -/
+theorem time_layout_dispatch (hasATL : Bool) (formatted : Bytes) :
+    (encodeTimeLayout hasATL formatted).toJ = J.str (esc formatted) ∧
+    (encodeTimeLayout hasATL formatted).res = .val (.str formatted) := by
+  cases hasATL <;> exact ⟨rfl, rfl⟩
+
+/-- callers, `FullCallerEncoder`: `file:line` (decimal, sign kept), and both parts are recoverable: the file is
+    everything before the LAST ':' -/
+theorem full_caller_value (o : SubRes) (file : Bytes) (line : Int) (fb : Bytes) :
+    subOrStr (callerRes (some .full) o true file line) fb = J.str (esc (file ++ 58 :: fmtInt line)) ∧
+    callerDecode (file ++ 58 :: fmtInt line) = some (file, line) :=
+  ⟨rfl, callerDecode_join file line⟩
+
+/-- `ShortCallerEncoder`: the last two '/'-separated elements of the file (`Callers.trimmedFile`, C15), then `:line` -/
+theorem short_caller_value (o : SubRes) (pre dir file : Bytes) (line : Int) (fb : Bytes)
+    (hd : Callers.slash ∉ dir) (hf : Callers.slash ∉ file) :
+    subOrStr (callerRes (some .short) o true (pre ++ Callers.slash :: (dir ++ Callers.slash :: file)) line) fb =
+      J.str (esc ((dir ++ Callers.slash :: file) ++ 58 :: fmtInt line)) ∧
+    callerDecode ((dir ++ Callers.slash :: file) ++ 58 :: fmtInt line) = some (dir ++ Callers.slash :: file, line) := by
+  refine ⟨?_, callerDecode_join _ line⟩
+  simp only [callerRes, subOrStr, scalarJ, callerText, callerShort, if_true, C15.trimmed_keeps_last_two pre dir file hd hf]
+
+/-- with fewer than two separators — a bare file name, `dir/file`, or a Windows path that uses only backslashes — the
+    short form is the full form -/
+theorem short_caller_few_segments (dir file : Bytes) (line : Int) (hd : Callers.slash ∉ dir) (hf : Callers.slash ∉ file) :
+    callerText .short true file line = callerText .full true file line ∧
+    callerText .short true (dir ++ Callers.slash :: file) line = callerText .full true (dir ++ Callers.slash :: file) line := by
+  obtain ⟨h1, h2⟩ := C15.trimmed_short dir file hd hf
+  simp [callerText, callerShort, callerFull, h1, h2]
+
+/-- an undefined caller prints as "undefined" whatever file and line it carries -/
+theorem caller_undefined (k : CallerEnc) (file : Bytes) (line : Int) : callerText k false file line = litStr "undefined" := by
+  cases k <;> rfl
+
+/-- names, `FullNameEncoder` (also used when `EncodeName` is nil): the logger name itself -/
+theorem full_name_value (o : SubRes) (name fb : Bytes) : subOrStr (nameRes true o name) fb = J.str (esc name) := rfl
+
+example : callerText .short true (litStr "/home/u/go/src/pkg/sub/file.go") 42 = litStr "sub/file.go:42" ∧
+    callerText .short true (litStr "C:\\Users\\u\\file.go") (-1) = litStr "C:\\Users\\u\\file.go:-1" ∧
+    callerText .full true [] 0 = litStr ":0" ∧
+    levelText .capitalColor 42 = [27, 91, 51, 49, 109] ++ litStr "LEVEL(42)" ++ [27, 91, 48, 109] ∧
+    levelText .color (-1) = [27, 91, 51, 53, 109] ++ litStr "debug" ++ [27, 91, 48, 109] := by decide +kernel
+
+end SubEncoders
+/-! ## (END block `subenc`) -/
 
 end ZapVerif.C02
